@@ -32,6 +32,8 @@ r13=rows(13); n13,m13=len(r13),sum('missed at first' in x for x in r13)
 r15=rows(15); n15,m15=len(r15),sum('missed at first' in x for x in r15)
 r16=rows(16); n16,m16=len(r16),sum('missed at first' in x for x in r16)
 r17=rows(17); n17,m17=len(r17),sum('missed at first' in x for x in r17)
+r18=rows(18); n18,m18=len(r18),sum('missed at first' in x for x in r18)
+r19=rows(19); n19,m19=len(r19),sum('missed at first' in x for x in r19)
 def nm(r): return len(r),sum('missed at first' in x for x in r)
 (n1,m1),(n2,m2),(n3,m3),(n4,m4),(n5,m5),(n6,m6),(n7,m7),(n8,m8),(n9,m9)=[nm(r) for r in (r1,r2,r3,r4,r5,r6,r7,r8,r9)]
 own=open('/verif/mutants/RESULTS.txt').read().strip().split('\n')
@@ -229,6 +231,29 @@ difference the checks do not demand on purpose, and is filed as not adopted.
 | seed | property | detected by (scenario / clause) |
 |---|---|---|
 '''%(n17,n17-m17,m17)+'\n'.join(r17)+'''
+
+**Round 18** was an audit rather than a round of new changes: the survivors of the syntactic
+mutation campaign (8.3), each of which had been read as not breaking a property, were handed in
+five groups to fresh sub-agents together with the property texts of the files concerned, with the
+task of proving the reading wrong - a demonstration that fails with the mutant and passes without.
+Of 219 survivors they claimed %d: all undetected as the checks stood, by construction. Two (a read
+one byte past the end of a four-byte extension block, which succeeds whenever the slice has spare
+capacity) showed a weakness of every harness at once - inputs were copied with `append`, which
+rounds the capacity up - and `clone` now returns exactly as much capacity as length. One set
+reserved bits the receiver has to ignore. One is about DON values, which the unchanged library
+does not get right either and the text does not demand, and is filed as not adopted.
+
+| seed | property | detected by (scenario / clause) |
+|---|---|---|
+'''%(n18,)+'\n'.join(r18)+'''
+
+**Round 19** (%d changes; a new brief: re-create a bug that RTP stacks - pion's own history,
+libwebrtc, GStreamer, FFmpeg, webrtc-rs - have actually had in the area of the property): %d
+detected as the checks stood, %d missed at first.
+
+| seed | property | detected by (scenario / clause) |
+|---|---|---|
+'''%(n19,n19-m19,m19)+'\n'.join(r19)+'''
 
 What changed in response, as a rule rather than case by case: every property whose code handles a
 length, a count or an index now has a *scale* scenario next to its small-scope product, in which
